@@ -153,6 +153,26 @@ func RunPipeline(seed int64, tier, driver, outDir string, search bool) *core.Res
 		}
 	}
 	res.Extra["copy_scenarios"] = nc
+	// (d') the index based views describe one machine, whatever order the states were verified in
+	ni := 200
+	if tier == "thorough" {
+		ni = 5000
+	}
+	for i := 0; i < ni; i++ {
+		fs, line := IndexViewScenario(seed*100057 + int64(i))
+		res.Evaluations++
+		for _, f := range fs {
+			key := "indexviews|" + strings.SplitN(f, " after ", 2)[0]
+			if failSeen[key] {
+				continue
+			}
+			failSeen[key] = true
+			file := filepath.Join(outDir, fmt.Sprintf("C20-seed%d-index%d.xcase", seed, len(res.Failures)))
+			os.WriteFile(file, []byte(fmt.Sprintf("# index views: %s\n%s\n", f, line)), 0o644)
+			res.Failures = append(res.Failures, core.FailRec{Prop: "C20", Msg: f + " [" + line + "]", File: file})
+		}
+	}
+	res.Extra["index_view_scenarios"] = ni
 	// (e) what the wait helpers report
 	nsem := 60
 	if tier == "thorough" {
